@@ -10,11 +10,12 @@ trap cleanup EXIT
 cp "$src/demo.rs" "$wt/tests/seed_demo.rs"
 cd "$wt"
 export CARGO_NET_OFFLINE=true
-cargo test --offline --test seed_demo >/tmp/sc-$id-base.log 2>&1; base=$?
+cargo test --offline ${SEED_FEATURES:+--features $SEED_FEATURES} --test seed_demo >/tmp/sc-$id-base.log 2>&1; base=$?
 git apply "$src/patch.diff" || { echo "$id: patch does not apply"; exit 2; }
-cargo test --offline --test seed_demo >/tmp/sc-$id-mut.log 2>&1; mut=$?
+cargo test --offline ${SEED_FEATURES:+--features $SEED_FEATURES} --test seed_demo >/tmp/sc-$id-mut.log 2>&1; mut=$?
 rm tests/seed_demo.rs
 suite=$(/verif/tools/suite.sh "$wt" | tail -1); suite_rc=$?
+if [ -n "${SEED_FEATURES:-}" ]; then fsuite=$(cd "$wt" && cargo test --offline --features $SEED_FEATURES 2>&1 | awk '/^test result:/ {p+=$4; f+=$6} END {printf "with-features: passed=%d failed=%d", p, f}'); suite="$suite; $fsuite"; fi
 echo "$id: demo_without_change_exit=$base demo_with_change_exit=$mut $suite"
 if [ $base -eq 0 ] && [ $mut -ne 0 ] && echo "$suite" | grep -q "failed=0 builderror=0"; then
   mkdir -p /verif/seeded/$id; cp "$src/patch.diff" "$src/demo.rs" /verif/seeded/$id/
